@@ -15,6 +15,8 @@ mod errs;
 mod session;
 mod jsonrt;
 mod serde_rt;
+mod conv;
+mod synctrial;
 
 use serde_json::Value;
 use std::fs::{File, OpenOptions};
@@ -36,6 +38,7 @@ fn runner(engine: &str) -> Runner {
         "errs" => errs::run_case,
         "json" => jsonrt::run_case,
         "serde" => serde_rt::run_case,
+        "conv" => conv::run_case,
         _ => die(&format!("unknown engine {}", engine)),
     }
 }
@@ -101,6 +104,9 @@ fn main() {
         "session-random" => {
             let seed: u64 = args[2].parse().unwrap_or(0);
             session::random(seed, args[3].parse().unwrap_or(1), args[4].parse().unwrap_or(10), &args[5]);
+        }
+        "sync-trial" => {
+            synctrial::trial(args[2].parse().unwrap_or(0), args[3].parse().unwrap_or(4), args[4].parse().unwrap_or(10), &args[5], &args[6]);
         }
         "ast" => {
             // debugging aid: driver ast '<expr>' ['<json doc>']
